@@ -31,6 +31,7 @@ T1 = datetime.datetime(2021, 5, 5, 1, 2, 3, tzinfo=UTC)
 
 class Sink:
     kind = "sink"
+    ret = None  # what every method returns (a chatty sink returns something truthy)
 
     def __init__(self):
         self.log = []  # (name, snapshot) ; for status: snapshot dict with tags frozen
@@ -38,19 +39,29 @@ class Sink:
 
     def startTestRun(self):
         self.log.append(("startTestRun",))
+        return self.ret
 
     def stopTestRun(self):
         self.log.append(("stopTestRun",))
+        return self.ret
 
     def status(self, test_id=None, test_status=None, test_tags=None, runnable=True, file_name=None, file_bytes=None, eof=False, mime_type=None, route_code=None, timestamp=None):
         snap = dict(test_id=test_id, test_status=test_status, test_tags=None if test_tags is None else frozenset(test_tags), runnable=runnable, file_name=file_name, file_bytes=file_bytes, eof=eof, mime_type=mime_type, route_code=route_code, timestamp=timestamp)
         self.log.append(("status", snap))
         if test_tags is not None:
             self.refs.append((test_tags, frozenset(test_tags)))
+        return self.ret
+
+
+class ChattySink(Sink):
+    """A sink whose methods return a truthy value (a count, itself, ...)."""
+
+    ret = 7
 
 
 # ---- tree specs: ("sink",) ("ff",) ("copy", [kids]) ("tag", variant, [kids]) ("ts", kid) ("q", code, kid)
-TAG_VARIANTS = {"a": (("x",), ()), "b": (("y",), ("t",)), "c": ((), ("t",))}
+TAG_VARIANTS = {"a": (("x",), ()), "b": (("y",), ("t",)), "c": ((), ("t",)), "d": (("y",), ("t",))}
+# variant "d" hands add/discard to the tagger as one-shot iterators ("an iterable of tags")
 
 
 class Built:
@@ -62,8 +73,8 @@ class Built:
 
 def build(spec, path, built):
     k = spec[0]
-    if k == "sink":
-        s = Sink()
+    if k in ("sink", "sinkT"):
+        s = Sink() if k == "sink" else ChattySink()
         built.sinks.append((tuple(path), s))
         return s
     if k == "ff":
@@ -74,7 +85,10 @@ def build(spec, path, built):
         return CopyStreamResult([build(c, path, built) for c in spec[1]])
     if k == "tag":
         add, discard = TAG_VARIANTS[spec[1]]
-        return StreamTagger([build(c, path + [("tag", spec[1])], built) for c in spec[2]], add=set(add), discard=set(discard))
+        kids = [build(c, path + [("tag", spec[1])], built) for c in spec[2]]
+        if spec[1] == "d":
+            return StreamTagger(kids, add=iter(list(add)), discard=(t for t in discard))
+        return StreamTagger(kids, add=set(add), discard=set(discard))
     if k == "ts":
         return TimestampingStreamResult(build(spec[1], path + [("ts",)], built))
     if k == "q":
@@ -250,7 +264,7 @@ def _brief(log):
     return out
 
 
-LEAVES = [("sink",), ("ff",)]
+LEAVES = [("sink",), ("ff",), ("sinkT",)]
 
 
 def wrap_options(child, siblings):
@@ -269,6 +283,8 @@ def wrap_options(child, siblings):
         out.append(("tag", "a", kids))
         out.append(("tag", "b", kids))
         out.append(("tag", "c", kids))
+        if len(kids) == 1:
+            out.append(("tag", "d", kids))
     out.append(("ts", child))
     out.append(("q", "0", child))
     return out
